@@ -232,10 +232,11 @@ def check(ctx):
                             f"draws from the process-global generator `{norm(n)}` unconditionally: two devices created with the same seed no longer "
                             "produce the same results, and results depend on what else used the global generator")
     rep.floor("guarded global-generator sites in the simulation path", n_glob, 6)
-    from .c31_extra import extra, perm
+    from .c31_extra import extra, perm, wire_map_order
 
     extra(ctx, rep)
     perm(ctx, rep)
+    wire_map_order(ctx, rep)
     return rep
 
 
